@@ -47,7 +47,7 @@ func Run(ctx *core.Ctx) {
 		"'//' directly after the end of a block comment and '/**' inside a body are outside the model's domain (not judged)",
 		"a print of a string parameter, a call of a constant template and if/else with a boolean parameter are trusted to produce X, U and the taken branch",
 		"inside the TLA+ model multi-byte runes are ASCII stand-in letters (TLC's on-disk state queue damages non-ASCII characters held in state variables); the real runes are used in every template rendered and in the M3 trace")
-	ctx.Trusted = append(ctx.Trusted, "TLC 1.8 evaluator", "harness/c15 (template builder, TLC value parser)")
+	ctx.Trusted = append(ctx.Trusted, "TLC evaluator (tla2tools, CommunityModules Json)", "harness/c15 (template builder, TLC value parser)")
 	if ctx.ReplayPath != "" {
 		Replay(ctx)
 		return
